@@ -353,13 +353,36 @@ def _pct(v):
     return [round(float(t.rstrip("%")), 2) for t in v.split()]
 
 
+def colliding_layouts(W):
+    """two DIFFERENT percentage layouts whose (folded) hashes are equal, found by folding hash() over a grid of origins -
+    the value classes hash by linear formulas, so collisions exist; None when the grid has none"""
+    seen = {}
+    for x in range(5, 70, 1):
+        for y in range(5, 75, 1):
+            spec = (x, y, 20, 20, ("LEFT", "TOP"))       # (an extent that fits the safe area, so fit_to_screen leaves it alone)
+            try:
+                h = W.ev("hash(l)", l=W.layout(spec))
+            except (FoldRaise, AnalysisError):
+                return None
+            if h in seen and seen[h] != spec:
+                return seen[h], spec
+            seen[h] = spec
+    return None
+
+
 def explore(ctx, thorough):
     W = World(ctx)
     bad = {k: [] for k in ("wellformed", "structure", "refs", "times", "text", "italics", "layout", "langs", "unchanged",
                            "sami_syncs", "sami_text")}
     n = 0
     fns = {}
-    for label, spec in caption_sets(thorough):
+    sets = list(caption_sets(thorough))
+    pair = colliding_layouts(W)
+    if pair is not None:
+        # two captions whose layouts differ but hash alike: each still needs its own region
+        sets.append(("layouts with equal hashes", {"langs": {"en-US": [(S, 2 * S, ["first"], pair[0], None),
+                                                                          (3 * S, 4 * S, ["second"], pair[1], None)]}}))
+    for label, spec in sets:
         n += 1
         cs = W.caption_set(spec)
         before = snapshot(cs)
@@ -421,6 +444,41 @@ def explore(ctx, thorough):
                 elif [(p_["begin"], p_["end"]) for p_ in ps] != [(fmt_ms(c[0]), fmt_ms(c[1])) for c in runs]:
                     bad["times"].append(dict(case, writer=wname, written=[(p_["begin"], p_["end"]) for p_ in ps][:3],
                                              required=[(fmt_ms(c[0]), fmt_ms(c[1])) for c in runs][:3]))
+        # ---------------- the force option of the three DFXP writers: exactly the named language when the set has it,
+        # every language otherwise; the paragraphs of each written language as without the option
+        if label in ("two languages", "concurrent captions", "two languages, cue ends coinciding"):
+            for wpath, wname in (("pycaption/dfxp/base.py", "DFXPWriter"), ("pycaption/dfxp/extras.py", "SinglePositioningDFXPWriter"),
+                                 ("pycaption/dfxp/extras.py", "LegacyDFXPWriter")):
+                for force in list(spec["langs"]) + ["zz"]:
+                    try:
+                        _, fdoc, _ = W.write(wpath, wname, cs, force=force)
+                    except FoldRaise as e:
+                        bad["langs"].append(dict(case, writer=wname, force=force, raises=f"{e.exc_name}: {e}"[:120]))
+                        continue
+                    except AnalysisError as e:
+                        raise AnalysisError(f"{wname}.write(force={force!r}) cannot be folded on the set '{label}': {e}")
+                    parsed, err = read_dfxp(fdoc)
+                    if parsed is None:
+                        bad["wellformed"].append(dict(case, writer=wname, force=force, problem=err))
+                        continue
+                    written = [l for l, _, _ in parsed["langs"]]
+                    if wname == "LegacyDFXPWriter":
+                        want_langs = [force] if force in spec["langs"] else [list(spec["langs"])[-1]]     # one language only
+                    else:
+                        want_langs = [force] if force in spec["langs"] else list(spec["langs"])
+                    if written != want_langs:
+                        bad["langs"].append(dict(case, writer=wname, force=force, languages_written=written, required=want_langs))
+                        continue
+                    for (lang, _, ps) in parsed["langs"]:
+                        caps = spec["langs"][lang]
+                        runs = []
+                        for c in caps:
+                            if wname != "DFXPWriter" and runs and (runs[-1][0], runs[-1][1]) == (c[0], c[1]):
+                                continue
+                            runs.append(c)
+                        if len(ps) != len(runs):
+                            bad["structure"].append(dict(case, writer=wname, force=force, language=lang, paragraphs=len(ps),
+                                                         required=len(runs)))
         # ---------------- SAMI
         try:
             fn, sdoc, _ = W.write("pycaption/sami.py", "SAMIWriter", cs)
